@@ -202,33 +202,62 @@ fn dot_ok(j: &JoinInputDefault) -> String {
     "1".into()
 }
 
+fn expand_line(line: &str, with_oracle: bool) -> Option<String> {
+    let mut it = line.splitn(3, '\t');
+    let (id, kind, src) = match (it.next(), it.next(), it.next()) {
+        (Some(a), Some(b), Some(c)) => (a, b, c),
+        _ => return None,
+    };
+    let k = parse_kind(kind).expect("bad kind");
+    let r = expand_src(k, src);
+    let mut out = format!(
+        "{}\t{}\t{}\t{}\t{}\t{}\t{}\t{}\t{}",
+        id, kind, r.in_toks, r.parse, r.structure, r.gen, r.out_toks, r.out_valid_expr, r.dot_ok
+    );
+    if with_oracle {
+        let o = match TokenStream::from_str(src) {
+            Ok(ts) => oracle::oracle(ts),
+            Err(_) => "-".into(),
+        };
+        out.push('\t');
+        out.push_str(&o);
+    }
+    Some(out)
+}
+
+/// Cases are independent: they are spread over worker threads (each expands its share, in order) and printed in input order.
 fn mode_expand(with_oracle: bool) {
     let stdin = std::io::stdin();
+    let lines: Vec<String> = stdin.lock().lines().map(|l| l.unwrap()).collect();
+    let n_workers = std::thread::available_parallelism().map(|n| n.get()).unwrap_or(4).min(16).max(1);
+    let lines = std::sync::Arc::new(lines);
+    let next = std::sync::Arc::new(std::sync::atomic::AtomicUsize::new(0));
+    let mut handles = Vec::new();
+    for _ in 0..n_workers {
+        let lines = lines.clone();
+        let next = next.clone();
+        handles.push(std::thread::spawn(move || {
+            let mut done: Vec<(usize, Option<String>)> = Vec::new();
+            loop {
+                let i = next.fetch_add(1, std::sync::atomic::Ordering::SeqCst);
+                if i >= lines.len() {
+                    break;
+                }
+                done.push((i, expand_line(&lines[i], with_oracle)));
+            }
+            done
+        }));
+    }
+    let mut results: Vec<Option<String>> = vec![None; lines.len()];
+    for h in handles {
+        for (i, r) in h.join().unwrap() {
+            results[i] = r;
+        }
+    }
     let stdout = std::io::stdout();
     let mut out = std::io::BufWriter::new(stdout.lock());
-    for line in stdin.lock().lines() {
-        let line = line.unwrap();
-        let mut it = line.splitn(3, '\t');
-        let (id, kind, src) = match (it.next(), it.next(), it.next()) {
-            (Some(a), Some(b), Some(c)) => (a, b, c),
-            _ => continue,
-        };
-        let k = parse_kind(kind).expect("bad kind");
-        let r = expand_src(k, src);
-        write!(
-            out,
-            "{}\t{}\t{}\t{}\t{}\t{}\t{}\t{}\t{}",
-            id, kind, r.in_toks, r.parse, r.structure, r.gen, r.out_toks, r.out_valid_expr, r.dot_ok
-        )
-        .unwrap();
-        if with_oracle {
-            let o = match TokenStream::from_str(src) {
-                Ok(ts) => oracle::oracle(ts),
-                Err(_) => "-".into(),
-            };
-            write!(out, "\t{}", o).unwrap();
-        }
-        writeln!(out).unwrap();
+    for r in results.into_iter().flatten() {
+        writeln!(out, "{}", r).unwrap();
     }
 }
 
